@@ -49,6 +49,8 @@ ASSUMPTIONS = [
     "a password provider that returns a Deferred fires it eventually (the harness fires it)",
     "a 5xx to GETINFO signal/names is the documented old-Tor fallback and counts as answered",
     "Tor writes COOKIEFILE as a QuotedString with esc_for_log escaping; the path bytes are a valid filesystem name",
+    "a correct server hash spelled in lower-case hex may be refused (no AUTHENTICATE, failure) or verified (the right "
+    "proof, success): the statement does not fix which spellings of a correct hash are read",
 ]
 
 ALL_METHODS = ["NULL", "HASHEDPASSWORD", "COOKIE", "SAFECOOKIE", "X-FUTURE"]
@@ -426,7 +428,15 @@ def drive(case):
     # 7. SAFECOOKIE: proof iff server hash verified
     if challenges and tor.challenged:
         verified_possible = case["challenge"] == "correct" and cookie_usable
-        if auths and not verified_possible:
+        # the right hash spelled with lower-case hex digits: the statement does not say whether that spelling is
+        # read (HEXDIG covers a-f); refusing it (no AUTHENTICATE) and verifying it (the right proof) both keep
+        # "proof only after verifying the server's hash" - any other token does not
+        verified_optional = case["challenge"] == "lowercase" and cookie_usable
+        if verified_optional and auths:
+            if auth_tokens != [tor.expected_client_hash.hex()]:
+                res.bad("wrong-client-proof", "challenge reply lowercase, expected %s or nothing, wrote %r" % (
+                    tor.expected_client_hash.hex(), lines))
+        elif auths and not verified_possible:
             res.bad("proof-sent-without-verified-server-hash",
                     "challenge reply %s, cookie %s: wrote %r" % (case["challenge"], cf and cf["content"], lines))
         if verified_possible:
